@@ -8,6 +8,7 @@ from hypothesis import strategies as st
 from vpm.core import Prop, Rejected
 
 PROPERTY_ID = "C18"
+FUZZ = {"props": ["tables", "gridgame"], "quick": [2, 800], "thorough": [8, 30000]}
 RULE = ("Game strings from a layout grammar (interior up to 4x4 / 5x4 thorough, two agents on distinct free cells, 0-3 "
         "obstacles, 0-4 walls and 0-4 fences with any direction on any cell, 0-3 private / shared goals, fence success "
         "probability in {0,.25,.5,1}); per layout the states reachable by an own breadth-first search (capped) x ALL 25 "
